@@ -596,7 +596,13 @@ pub fn run(family: Family, mut ch: Choices) -> RunOut {
     let min_chunk = *ch.pick(&[0u32, 1, 4, 1024, 32 * 1024]);
     // (inbound maximum: none, ordinary values, and values of a few bytes - smaller than a fixed header, or
     // exactly the Remaining Length of the small packets of the stream: a frame AT the limit is accepted)
-    let max_size = if family == Family::C02 { *ch.pick(&[0u32, 0, 64, 300, 64, 300, 1, 2, 3, 4, 5, 7, 12, 20]) } else { 0 };
+    let max_size = if family != Family::C02 {
+        0
+    } else if ch.chance(1, 6) {
+        *ch.pick(&[1u32, 2, 3, 4, 5, 7, 12, 20])
+    } else {
+        *ch.pick(&[0u32, 0, 64, 300])
+    };
     plan.cfg.min_chunk = min_chunk;
     plan.cfg.max_size = max_size;
     cx.note(format!("codec {vn} min_chunk={min_chunk} max_size={max_size}"));
